@@ -201,8 +201,12 @@ def check(ctx):
             if not dr or not fr:
                 problems.append('parameters are not rendered from self.params in both forms')
             else:
-                dfil = {repr(r.src.filters) + (f' order={r.src.order}' if r.src.order else '') for r in dr}
-                ffil = {repr(r.src.filters) + (f' order={r.src.order}' if r.src.order else '') for r in fr}
+                def canon_filter(r):
+                    # the name of the loop variable is irrelevant
+                    return repr(r.src.filters).replace(f'<{r.src.var.text()}', '<_').replace(f'{{{r.src.var.text()}', '{_') + \
+                        (f' order={r.src.order}' if r.src.order else '')
+                dfil = {canon_filter(r) for r in dr}
+                ffil = {canon_filter(r) for r in fr}
                 if dfil != ffil or len(dfil) != 1:
                     problems.append(f'declaration takes the parameters as {sorted(dfil)}, the definition as {sorted(ffil)}')
                 for r in dr + fr:
@@ -342,6 +346,25 @@ def check(ctx):
     run.add('C20.named', MOD, 'TemplateArg.__str__', repr(ta)[:80], okta,
             'template argument = `<fqn>`' if okta else f'template argument renders `{ta!r}`')
     run.floor('C20.named', 5)
+    # ---- C20.pure-render: rendering a building block twice (declaration, then definition) gives the same text ------------------
+    from ..mutation import Mutations
+    mut = Mutations(prog, ctx.cg)
+    mut.solve()
+    n_r = 0
+    for cls in prog.modules['dznpy.cpp_gen'].classes.values():
+        for mname in ('__str__', 'as_decl', 'as_def'):
+            m = cls.methods.get(mname)
+            if m is None or mname == '__str__' and any(isinstance(x, ast.Raise) for x in m.node.body[:1]):
+                continue
+            n_r += 1
+            touched = mut.mut_self.get(m.fq) or {}
+            run.add('C20.pure-render', MOD, f'{cls.name}.{mname}', f'{cls.name}.{mname}: mutation of self', not touched,
+                    'rendering does not modify the building block' if not touched else
+                    'rendering modifies the building block (' + '; '.join(sorted({' <- '.join(e.chain()[:2]) for e in touched.values()}))[:260]
+                    + '): the declaration rendered first and the definition rendered afterwards no longer denote the same entity',
+                    nontrivial=False)
+    if n_r < 15:
+        run.error('C20.pure-render', MOD, '-', 'render functions', f'only {n_r} render functions of cpp_gen found (15+ expected)')
     # ---- C20.validators ------------------------------------------------------------------------------------------------------------------
     _validators(ctx)
     run.floor('C20.same-entity', 5)
